@@ -100,7 +100,10 @@ package client
 //@ site tls.Unmarshal#1 as um
 //@ site DecodeString#1 as dec
 //@ site VerifySCTSignature#1 as vs
+//@ site MarshalPKIXPublicKey#1 as mk
+//@ site sha256.Sum256#1 as kh
 //@ requires c != nil && c.logger != nil && c.backoff != nil && c.httpClient != nil
+//@ ensures [log-id-is-the-hash-of-the-configured-key] result1 == nil && old(c.Verifier) != nil ==> mk.called && mk.res1 == nil && mk.pub == old(c.Verifier.PubKey) && kh.called && kh.data == mk.res0 && result0.LogID.KeyID == kh.res && len(after(pp, resp.ID)) == 32
 //@ loop 1 invariant len(req.Chain) == rangeindex + 1 && (forall j int :: 0 <= j && j <= rangeindex ==> req.Chain[j] == chain[j].Data)
 //@ ensures [never-an-unverified-sct] result1 == nil ==> result0 != nil && vs.called && vs.res == nil && um.res1 == nil && len(um.res0) == 0 && dec.res1 == nil
 //@ ensures [transport-error-passed-on] pp.res2 != nil ==> result1 == pp.res2 && result0 == nil
@@ -108,3 +111,102 @@ package client
 //@ at pp assert [submits-the-whole-chain-in-order] len(req.Chain) == len(chain) && (forall j int :: 0 <= j && j < len(chain) ==> req.Chain[j] == chain[j].Data) && pp.path == path
 //@ at vs assert [verifies-the-sct-it-will-return-for-the-submitted-chain-and-type] vs.sct == *sct && vs.ctype == ctype && vs.certData == chain && vs.c == c
 //@ at vs assert [sct-fields-from-the-reply] sct.SCTVersion == resp.SCTVersion && sct.Timestamp == resp.Timestamp && sct.Extensions == dec.res0 && sct.Signature == ds
+
+//@ func (*LogClient).AddChain
+//@ props C12
+//@ site addChainWithRetry#1 as sub
+//@ requires c != nil && c.logger != nil && c.backoff != nil && c.httpClient != nil
+//@ ensures [result-is-the-verified-submission] result0 == sub.res0 && result1 == sub.res1
+//@ at sub assert [x509-entry-type-on-add-chain] sub.ctype == ct.X509LogEntryType && sub.path == "/ct/v1/add-chain" && sub.chain == chain && sub.c == c
+
+//@ func (*LogClient).AddPreChain
+//@ props C12
+//@ site addChainWithRetry#1 as sub
+//@ requires c != nil && c.logger != nil && c.backoff != nil && c.httpClient != nil
+//@ ensures [result-is-the-verified-submission] result0 == sub.res0 && result1 == sub.res1
+//@ at sub assert [precert-entry-type-on-add-pre-chain] sub.ctype == ct.PrecertLogEntryType && sub.path == "/ct/v1/add-pre-chain" && sub.chain == chain && sub.c == c
+
+//@ func (*LogClient).GetSTHConsistency
+//@ props C12
+//@ site GetAndParse#1 as gp
+//@ requires c != nil && c.httpClient != nil
+//@ ensures [error-passed-on-with-no-result] gp.res2 != nil ==> result1 == gp.res2 && len(result0) == 0
+//@ ensures [success-returns-the-decoded-proof] gp.res2 == nil ==> result1 == nil && result0 == after(gp, resp.Consistency)
+//@ at gp assert [asks-for-both-sizes] gp.path == "/ct/v1/get-sth-consistency" && has(gp.params, "first") && has(gp.params, "second") && gp.c == &c.JSONClient
+
+//@ func (*LogClient).GetProofByHash
+//@ props C12
+//@ site GetAndParse#1 as gp
+//@ requires c != nil && c.httpClient != nil
+//@ ensures [error-passed-on-with-no-result] gp.res2 != nil ==> result1 == gp.res2 && result0 == nil
+//@ ensures [success-returns-the-decoded-reply] gp.res2 == nil ==> result1 == nil && result0 != nil
+//@ at gp assert [asks-for-hash-and-size] gp.path == "/ct/v1/get-proof-by-hash" && has(gp.params, "tree_size") && has(gp.params, "hash")
+
+//@ func (*LogClient).GetEntryAndProof
+//@ props C12
+//@ site GetAndParse#1 as gp
+//@ requires c != nil && c.httpClient != nil
+//@ ensures [error-passed-on-with-no-result] gp.res2 != nil ==> result1 == gp.res2 && result0 == nil
+//@ ensures [success-returns-the-decoded-reply] gp.res2 == nil ==> result1 == nil && result0 != nil
+//@ at gp assert [asks-for-index-and-size] gp.path == "/ct/v1/get-entry-and-proof" && has(gp.params, "leaf_index") && has(gp.params, "tree_size")
+
+//@ func (*LogClient).GetAcceptedRoots
+//@ props C12
+//@ arith int
+//@ site GetAndParse#1 as gp
+//@ site DecodeString#1 as dec
+//@ requires c != nil && c.httpClient != nil
+//@ loop 1 invariant len(roots) == rangeindex + 1
+//@ ensures [transport-error-passed-on] gp.res2 != nil ==> result1 == gp.res2 && len(result0) == 0
+//@ ensures [undecodable-root-fails-the-whole-call-with-status-and-body] dec.called && dec.res1 != nil ==> len(result0) == 0 && typeof(result1) == jsonclient.RspError && as(result1, jsonclient.RspError).StatusCode == after(gp, gp.res0.StatusCode) && as(result1, jsonclient.RspError).Body == gp.res1
+//@ ensures [success-has-one-root-per-certificate-sent] result1 == nil ==> len(result0) == len(after(gp, resp.Certificates))
+
+//@ func (*LogClient).GetRawEntries
+//@ props C12 C07
+//@ site GetAndParse#1 as gp
+//@ requires c != nil && c.httpClient != nil
+//@ ensures [negative-or-inverted-range-refused-without-a-request] end < 0 || end < start ==> result0 == nil && result1 != nil && !gp.called
+//@ ensures [error-passed-on-with-no-result] gp.called && gp.res2 != nil ==> result1 == gp.res2 && result0 == nil
+//@ ensures [success-returns-the-decoded-reply] gp.called && gp.res2 == nil ==> result1 == nil && result0 != nil
+//@ ensures [caller-view] (result0 != nil) != (result1 != nil)
+//@ at gp assert [asks-for-start-and-end] gp.path == "/ct/v1/get-entries" && has(gp.params, "start") && has(gp.params, "end")
+
+//@ func (*LogClient).GetEntries
+//@ props C12
+//@ arith int
+//@ site GetRawEntries#1 as raw
+//@ site LogEntryFromLeaf#1 as le
+//@ site x509.IsFatal#1 as isf
+//@ requires c != nil && c.httpClient != nil
+//@ loop 1 invariant len(entries) == len(resp.Entries)
+//@ ensures [fetch-error-passed-on] raw.res1 != nil ==> result1 == raw.res1 && len(result0) == 0
+//@ ensures [one-entry-per-leaf-on-success] result1 == nil ==> raw.res1 == nil && len(result0) == len(after(raw, raw.res0.Entries))
+//@ ensures [a-fatal-entry-error-fails-the-whole-call] isf.called && isf.res ==> len(result0) == 0 && result1 != nil
+//@ at le assert [entry-index-counts-from-start] start + i <= 9223372036854775807 ==> le.index == start + i
+
+//@ func New
+//@ props C12 C18
+//@ modifies nothing
+//@ site jsonclient.New#1 as jn
+//@ fresh result0
+//@ ensures [client-xor-error] (result0 != nil) != (result1 != nil)
+//@ ensures [error-passed-on] jn.res1 != nil ==> result1 == jn.res1
+//@ ensures [wraps-the-json-client-unchanged] jn.res1 == nil ==> result1 == nil && result0.JSONClient == *jn.res0
+//@ ensures [usable-client] result1 == nil ==> result0.httpClient != nil && result0.logger != nil && result0.backoff != nil
+//@ at jn assert [same-arguments] jn.uri == uri && jn.hc == hc && jn.opts == opts
+
+//@ func (*TemporalLogClient).AddChain
+//@ props C12 C18
+//@ site addChain#1 as sub
+//@ requires tlc != nil && len(tlc.Clients) == len(tlc.intervals)
+//@ requires forall j int :: 0 <= j && j < len(tlc.Clients) ==> tlc.Clients[j] != nil && tlc.Clients[j].logger != nil && tlc.Clients[j].backoff != nil && tlc.Clients[j].httpClient != nil
+//@ ensures [result-is-the-routed-submission] result0 == sub.res0 && result1 == sub.res1
+//@ at sub assert [x509-entry-type-on-add-chain] sub.ctype == ct.X509LogEntryType && sub.path == "/ct/v1/add-chain" && sub.chain == chain && sub.tlc == tlc
+
+//@ func (*TemporalLogClient).AddPreChain
+//@ props C12 C18
+//@ site addChain#1 as sub
+//@ requires tlc != nil && len(tlc.Clients) == len(tlc.intervals)
+//@ requires forall j int :: 0 <= j && j < len(tlc.Clients) ==> tlc.Clients[j] != nil && tlc.Clients[j].logger != nil && tlc.Clients[j].backoff != nil && tlc.Clients[j].httpClient != nil
+//@ ensures [result-is-the-routed-submission] result0 == sub.res0 && result1 == sub.res1
+//@ at sub assert [precert-entry-type-on-add-pre-chain] sub.ctype == ct.PrecertLogEntryType && sub.path == "/ct/v1/add-pre-chain" && sub.chain == chain && sub.tlc == tlc
